@@ -30,6 +30,12 @@ func c03(p *core.Prog, r *core.Report) {
 	c03Panics(p, r)
 	c03ReaderLoop(p, r)
 	c03Loops(p, r)
+	// the relay-timer panics ("only stopped or completed timers can be
+	// released") are unreachable from peer data only while an id present in
+	// the table is never admitted again and timers are released by Delete alone
+	r.Alias("C09-R4", "C03-INV")
+	c09Forget(p, r)
+	r.Alias("C09-R4", "")
 	c03LockOrder(p, r, "C03-R5")
 }
 
